@@ -217,7 +217,7 @@ Lemma error_json_shape e :
   = obj_text3 k_body (Some (e_body e)) f_exception (Some (repr_exc isp (e_exc e))) f_traceback (e_tb e).
 Proof.
   unfold error_json, json_obj, obj_text3. cbn [map join fst snd json_opt_str].
-  cbn [app]. rewrite <- !app_assoc. reflexivity.
+  cbn [app]. repeat (rewrite <- app_assoc || rewrite <- app_comm_cons). reflexivity.
 Qed.
 
 Lemma keys_read_back : jdec k_body = k_body /\ jdec f_exception = f_exception /\ jdec f_traceback = f_traceback.
